@@ -13,6 +13,9 @@ KeySets == {{}, DurKeySet, {"y", "ns"}, {"d", "h"}, {"mo", "w", "s"}} \cup {{k} 
 \* (independent of the session's current duration: explored from one anchor only)
 Anchor == CHOOSE c \in Durs : TRUE
 FromPartialAct(D, S) == cur = Anchor /\ LET p == [k \in S |-> D[k]] IN last' = [op |-> "fromPartial", d |-> D, p |-> p, out |-> DurFromPartial(p)] /\ cur' = cur
+\* Duration::from_day_and_time(day, time): a duration exists only if its fields share one sign and stay inside the limits - whichever constructor built it
+DayTimeOnly(D) == IsZero(D.y) /\ IsZero(D.mo) /\ IsZero(D.w)
+FromDayTimeAct(D) == cur = Anchor /\ DayTimeOnly(D) /\ last' = [op |-> "fromDayAndTime", d |-> D, out |-> DurNew(D)] /\ cur' = cur
 NegAct == last' = [op |-> "negated", a |-> cur, out |-> Ok(NegDur(cur))] /\ cur' = NegDur(cur)
 AbsAct == last' = [op |-> "abs", a |-> cur, out |-> Ok(AbsDur(cur))] /\ cur' = AbsDur(cur)
 SignAct == last' = [op |-> "sign", a |-> cur, out |-> Ok(DurSign(cur))] /\ cur' = cur
@@ -27,6 +30,7 @@ TotalAct(u) == last' = [op |-> "total", a |-> cur, u |-> u, out |-> DurTotal(cur
 Next == /\ (OneStep => last = None)
         /\ \/ \E D \in Candidates : NewAct(D)
            \/ \E D \in Candidates, S \in KeySets : FromPartialAct(D, S)
+           \/ \E D \in Candidates : FromDayTimeAct(D)
            \/ NegAct \/ AbsAct \/ SignAct \/ InRangeAct
            \/ \E b \in Durs : AddAct(b) \/ SubAct(b) \/ CmpAct(b)
            \/ \E o \in RoundOpts : RoundAct(o)
